@@ -14,6 +14,7 @@ import contextlib
 import decimal
 import io
 import logging
+import os
 import re
 
 import core
@@ -23,8 +24,10 @@ D = decimal.Decimal
 
 LEVEL_NOTE = (
     "PARTIAL BY DESIGN. Proved (coq/props/C05.v, about coq/model/FmtDbc.v): the mechanisms the round trip rests on - DBC start-bit "
-    "numbering, compound identifiers, multiplex tokens, 32-character name shortening with System*LongSymbol restore (premise: "
-    "32-character prefixes unique in their scope), ENUM key/value conversion, GenSigStartValue on the raw grid, decimal integer text, "
+    "numbering, compound identifiers, multiplex tokens, 32-character name shortening with System*LongSymbol restore (objects addressed "
+    "by their shortened name - ECUs, environment variables: premise 32-character prefixes unique in their scope; signals of a frame: "
+    "with the writer's numeric suffix on colliding symbols, premises suffixed symbols distinct and no short name colliding; frames are "
+    "addressed by identifier), ENUM key/value conversion, GenSigStartValue on the raw grid, decimal integer text, "
     "format_float(Decimal) parsing back to the same number (str(Decimal) and Decimal(text) modelled on digit strings), "
     "and a statement-level model dbc_write/dbc_read for the core subset (ECUs, frames, senders, signals with placement/type/scaling/"
     "limits/unit/receivers, simple multiplexing, value tables, float type) with round trip and fixed point. NOT proved: that the "
@@ -385,11 +388,17 @@ def decorate(rng, C, db, units_pool, comment_pool, ft):
     if ft.get("comments") and ft.get("rich_comments"):
         objs = [x for f in db.frames for x in [f] + list(f.signals)] + list(db.ecus)
         for o in rng.sample(objs, min(len(objs), 3)):
-            kind = rng.choice(["quote", "multi", "multi3", "semicolon"])
+            kind = rng.choice(["quote", "multi", "multi3", "semicolon", "multi-nonascii", "multi-nonascii", "multi-nbsp"])
             if kind == "quote":
                 o.add_comment('say "hello" to %s' % rng.choice(matgen.COMMENT_WORDS))
             elif kind == "multi":
                 o.add_comment("first line\nsecond line")
+            elif kind == "multi-nonascii":
+                # non-ASCII text on lines after the first (decoded with the COMMENT encoding by the reader)
+                o.add_comment("first line\n%s second %s\nthird line: %s" % (rng.choice(comment_pool), rng.choice(comment_pool), rng.choice(comment_pool)))
+            elif kind == "multi-nbsp":
+                # U+00A0 at the start / end of a continuation line (expressible in latin-1 and utf-8; not ASCII white space)
+                o.add_comment("first line\n\u00a0indented by a no-break space\u00a0\nlast\u00a0line")
             elif kind == "multi3":
                 o.add_comment("line one;\nline \"two\"\nlast line (3)")
             else:
@@ -434,6 +443,59 @@ def decorate(rng, C, db, units_pool, comment_pool, ft):
         db.add_signal(s)
     if ft.get("id_zero") and db.frames and not any(f.arbitration_id.id == 0 for f in db.frames):
         db.frames[0].arbitration_id = C.ArbitrationId(0, False)
+    if ft.get("shared_prefixes"):
+        # names longer than 32 characters that SHARE their first 32 characters within their scope.  dump() keeps them apart by a
+        # numeric suffix on the SG_ symbol (signals of one frame) resp. addresses the object by its identifier (frames).
+        suffixes = ["_Request", "_Response", "_Status", "_Counter"]
+        cands = [f for f in db.frames if len(f.signals) >= 2]
+        for f in rng.sample(cands, min(len(cands), 2)):
+            k = rng.randrange(2, min(len(f.signals), 4) + 1)
+            chosen = rng.sample(list(f.signals), k)
+            prefix = ("Shared_%s_prefix_of_thirty_two_chars_x" % rng.choice(matgen.NAME_POOL))[:32]
+            assert len(prefix) == 32
+            sufs = list(suffixes)
+            if ft.get("name_equals_prefix"):
+                sufs[0] = ""       # one sibling is named exactly like the 32-character prefix of the others
+            for s, suf in zip(chosen, sufs):
+                old_name, new_name = s.name, prefix + suf
+                if any(t.name == new_name for t in f.signals):
+                    continue
+                s.name = new_name
+                for t in f.signals:
+                    if t.muxer_for_signal == old_name:
+                        t.muxer_for_signal = new_name
+                if ft.get("value_tables") and not s.is_float and rng.random() < 0.8:
+                    lo, hi = s.calculate_raw_range()
+                    s.add_values(lo, "lowest of " + (suf[1:] or "prefix"))
+                    s.add_values(hi, rng.choice(matgen.LABELS))
+                if ft.get("comments") and rng.random() < 0.6:
+                    s.add_comment("comment of " + new_name)
+                if ft.get("attributes") and "SigIntAttr" in db.signal_defines and rng.random() < 0.6:
+                    s.add_attribute("SigIntAttr", str(rng.randrange(0, 65535)))
+        if len(db.frames) >= 2 and rng.random() < 0.6:
+            prefix = ("FShared_%s_frame_prefix_thirty_two_x" % rng.choice(matgen.NAME_POOL))[:32]
+            for f, suf in zip(rng.sample(list(db.frames), 2), suffixes):
+                if f.name.startswith("FNestedMux"):
+                    continue
+                f.name = prefix + suf
+                if ft.get("comments") and rng.random() < 0.5:
+                    f.add_comment("comment of " + f.name)
+    if ft.get("shared_prefix_ecus") and len(db.ecus) >= 2:
+        # ECUs: BA_ "SystemNodeLongSymbol" BU_ <32-character name> addresses the node by its shortened name
+        prefix = ("EShared_%s_node_prefix_thirty_two_xx" % rng.choice(matgen.NAME_POOL))[:32]
+        for e, suf in zip(rng.sample(list(db.ecus), 2), ["_Front", "_Rear"]):
+            old_name, new_name = e.name, prefix + suf
+            e.name = new_name
+            for f in db.frames:
+                f.transmitters[:] = [new_name if t == old_name else t for t in f.transmitters]
+                for sg in f.signals:
+                    sg.receivers[:] = [new_name if r == old_name else r for r in sg.receivers]
+                f.update_receiver()
+            for sg in db.signals:
+                sg.receivers[:] = [new_name if r == old_name else r for r in sg.receivers]
+            for ev in db.env_vars.values():
+                if isinstance(ev.get("accessNodes"), list):
+                    ev["accessNodes"] = [new_name if r == old_name else r for r in ev["accessNodes"]]
     if ft.get("env_vars"):
         used = set()
         for _ in range(rng.randrange(1, 4)):
@@ -484,15 +546,19 @@ def decorate(rng, C, db, units_pool, comment_pool, ft):
 
 FEATURES = ["ext_ids", "fd", "j1939", "mux", "floats", "value_tables", "comments", "attributes", "long_names", "multi_senders",
             "free_signals", "env_vars", "signal_groups", "cycle_times", "nonascii", "rich_comments", "quoted_labels", "nested_mux",
-            "long_env_names", "signed", "numeric_extremes", "id_zero", "no_senders"]
+            "long_env_names", "signed", "numeric_extremes", "id_zero", "no_senders", "shared_prefixes", "shared_prefix_ecus"]
 
 
-def gen_case(rng, C, idx, enc):
+def gen_case(rng, C, idx, enc, stream=None):
     """one generated matrix inside the DBC envelope (Appendix A) + the feature set it was drawn from"""
     if idx % 4 == 0:
         ft = {k: True for k in FEATURES}
     else:
         ft = {k: rng.random() < 0.55 for k in FEATURES}
+    ft["shared_prefix_ecus"] = stream == ECU_CLASH_KEY
+    ft["name_equals_prefix"] = stream == PREFIX32_KEY
+    if stream == PREFIX32_KEY:
+        ft["shared_prefixes"] = True
     kw = dict(ext_ids=ft["ext_ids"], fd=ft["fd"], max_len=64 if ft["fd"] else 8, j1939=ft["j1939"] and ft["ext_ids"],
               mux="mixed" if ft["mux"] else "none", floats=ft["floats"], value_tables=ft["value_tables"], comments=ft["comments"],
               attributes=ft["attributes"], long_names=ft["long_names"], multi_senders=ft["multi_senders"], free_signals=ft["free_signals"],
@@ -526,6 +592,26 @@ def content_classes(db):
             cl.add("id:zero")
         if len(f.name) > 32:
             cl.add("longname:frame")
+            if any(g is not f and g.name[:32] == f.name[:32] for g in db.frames):
+                cl.add("longname:frame:shared-prefix")
+        shared = [s for s in f.signals if len(s.name) > 32 and any(t is not s and t.name[:32] == s.name[:32] for t in f.signals)]
+        if shared:
+            cl.add("longname:signal:shared-prefix")
+            if any(s.values for s in shared):
+                cl.add("longname:signal:shared-prefix+values")
+            if any(s.comment for s in shared):
+                cl.add("longname:signal:shared-prefix+comment")
+            if any(s.attributes for s in shared):
+                cl.add("longname:signal:shared-prefix+attribute")
+            if any(s.is_multiplexer or s.mux_val is not None for s in shared):
+                cl.add("longname:signal:shared-prefix+mux")
+        for o in [f] + list(f.signals):
+            if o.comment and "\n" in o.comment:
+                tail = o.comment.split("\n", 1)[1]
+                if any(ord(c) > 127 for c in tail):
+                    cl.add("comment:multiline:non-ascii-continuation")
+                if "\u00a0" in tail:
+                    cl.add("comment:multiline:nbsp-edge")
         if f.is_complex_multiplexed:
             cl.add("mux:extended")
         elif any(s.is_multiplexer for s in f.signals):
@@ -568,8 +654,12 @@ def content_classes(db):
             for k in s.attributes:
                 cl.add("attr:signal:" + db.signal_defines[k].type)
     for e in db.ecus:
+        if e.comment and "\n" in e.comment and any(ord(c) > 127 for c in e.comment.split("\n", 1)[1]):
+            cl.add("comment:multiline:non-ascii-continuation:ecu")
         if len(e.name) > 32:
             cl.add("longname:ecu")
+            if any(g is not e and g.name[:32] == e.name[:32] for g in db.ecus):
+                cl.add("longname:ecu:shared-prefix")
         if e.comment:
             cl.add("comment:ecu")
         for k in e.attributes:
@@ -596,7 +686,25 @@ def describe(db, enc_name):
 _PER_KEY = {}
 
 
+ECU_CLASH_KEY = "ecu-long-name-prefix-clash"
+PREFIX32_KEY = "signal-name-equals-long-sibling-prefix"
+STREAM_WHAT = {
+    ECU_CLASH_KEY: "ECUs whose names share their first 32 characters do not survive the DBC round trip",
+    PREFIX32_KEY: "a signal named exactly like the 32-character prefix of long-named signals of its frame comes back with the "
+                  "writer's numeric suffix (no SystemSignalLongSymbol is written for it)",
+}
+_AGGREGATE = {"key": None, "hits": None}
+
+
 def viol(chk, key, what, inp, expected=None, observed=None):
+    if _AGGREGATE["key"] is not None and key != "envvar-long-name-lost":
+        # matrices of the ECU-clash stream: every symptom is reported under the one key of that defect
+        _AGGREGATE["hits"].append((key, what, inp, expected, observed))
+        return
+    _viol(chk, key, what, inp, expected, observed)
+
+
+def _viol(chk, key, what, inp, expected=None, observed=None):
     """core.Check keeps at most 50 violations: report at most 3 inputs per failure class so that no class hides another
     (recorded known findings are always passed on, they are only counted)"""
     if any(k.get("key") == key for k in chk.known):
@@ -650,10 +758,16 @@ def search_one(chk, F, db, enc, tag, strict_fixed_point=True):
     return b1, db2
 
 
+_HEADS = {"VERSION", "NS_", "BS_:", "BU_:", "VAL_TABLE_", "BO_", "SG_", "BO_TX_BU_", "CM_", "BA_DEF_", "BA_DEF_DEF_", "BA_", "VAL_",
+          "SIG_VALTYPE_", "SIG_GROUP_", "SG_MUL_VAL_", "EV_"}
+
+
 def _fp_class(diffline):
     t = diffline[1:].split()
     if not t:
         return "blank"
+    if t[0] not in _HEADS:
+        return "CM_-continuation-line"
     if t[0] in ("BA_", "BA_DEF_", "BA_DEF_DEF_") and len(t) > 1:
         names = re.findall(r'"([^"]*)"', diffline)
         return t[0] + (":" + names[0] if names else "")
@@ -678,17 +792,41 @@ def run(chk):
     thorough = chk.tier == "thorough"
     n_mat = 1200 if not thorough else 40000
     tie_inputs = []
+    streams_on = {k: any(x.get("key") == k for x in chk.known) or os.environ.get("VERIF_C05_STREAMS") == "1" for k in STREAM_WHAT}
+    for k, on in streams_on.items():
+        if not on:
+            chk.notes.append("stream '%s' not run: it fails on the current code (reported finding) and is enabled by recording that key in "
+                             "known_findings.json or VERIF_C05_STREAMS=1" % k)
     for idx in range(n_mat):
         enc = ENC_PROFILES[idx % len(ENC_PROFILES)] if idx % 7 else rng.choice(ENC_PROFILES)
+        # gated streams (every 10th matrix each), all symptoms of a matrix under the one key of the defect the stream provokes.
+        # A stream runs only once its key is recorded in known_findings.json (or VERIF_C05_STREAMS=1); until then it is skipped
+        # so that a reported-but-unrecorded defect can neither mask nor fake other detections.
+        stream = {3: ECU_CLASH_KEY, 7: PREFIX32_KEY}.get(idx % 10)
+        if stream is not None and not streams_on[stream]:
+            stream = None
         try:
-            db, ft = gen_case(rng, C, idx, enc)
+            db, ft = gen_case(rng, C, idx, enc, stream)
         except RuntimeError:
             chk.count("generator-gave-up")
+            continue
+        if stream is not None:
+            _AGGREGATE["key"], _AGGREGATE["hits"] = stream, []
+            b1, db2 = search_one(chk, F, db, enc, "%s gen#%d" % (stream, idx))
+            hits = _AGGREGATE["hits"]
+            _AGGREGATE["key"], _AGGREGATE["hits"] = None, None
+            chk.case(hash(b1), True)
+            chk.count("stream:" + stream)
+            if hits:
+                k0, w0, inp0, e0, o0 = hits[0]
+                _viol(chk, stream, STREAM_WHAT[stream], dict(inp0, symptoms=sorted({h[0] for h in hits})[:12]), e0, o0)
             continue
         cl = content_classes(db)
         for c in cl:
             chk.count(c)
         chk.count("encoding:" + enc[0])
+        if enc[0] == "latin-1+utf-8-comments" and cl & {"comment:multiline:non-ascii-continuation", "comment:multiline:non-ascii-continuation:ecu"}:
+            chk.count("mixed-encoding:multiline-non-ascii-continuation")
         b1, db2 = search_one(chk, F, db, enc, "gen#%d" % idx)
         chk.case(hash(b1), len(cl) >= 3)
         if idx < 3 and b1 is not None:
@@ -722,6 +860,9 @@ REQUIRED_CLASSES = [
     "initial:nonzero", "initial:raw0-offset", "value-table:signal", "value-table:global", "comment:multiline", "unit:non-ascii",
     "signal-groups", "cycle-time", "order:motorola", "encoding:utf-8", "encoding:latin-1", "senders:none", "receivers:none",
     "number:exponent", "number:negative-offset", "id:zero",
+    "longname:signal:shared-prefix+values", "longname:signal:shared-prefix+comment", "longname:signal:shared-prefix+attribute",
+    "longname:signal:shared-prefix+mux", "longname:frame:shared-prefix", "comment:multiline:non-ascii-continuation",
+    "comment:multiline:non-ascii-continuation:ecu", "comment:multiline:nbsp-edge", "mixed-encoding:multiline-non-ascii-continuation",
 ]
 
 
@@ -952,11 +1093,11 @@ def run_tie(chk, C, F, tie_inputs):
                         if want == want.to_integral_value():
                             add("start-value", 512, [[int(tok_i is not None), tok_i or 0, O, Fa, MIN, MAX]], [[int(want)]], inf)
             # long names of the signals of this frame
-            if any(len(s.name) > 32 for s in sigs) or rng.random() < 0.05:
+            if (any(len(s.name) > 32 for s in sigs) or rng.random() < 0.05) and sigs:
                 shorts = [st["name"] for st in sgs]
                 attrs = [(st["sig"], _unq(st["value"])) for st in stmts if st["k"] == "BA_" and st["cls"] == "SG_"
                          and st["name"] == "SystemSignalLongSymbol" and st["cid"] == cid]
-                add("long-names", 507, [codes(s.name) for s in sigs],
+                add("long-names", 517, [codes(s.name) for s in sigs],
                     [codes(x) for x in shorts] + [[-1]] + [codes(y) for kv in attrs for y in kv], dict(frame=name, scope="signals"))
                 add("long-names", 508, [codes(x) for x in shorts] + [[-1]] + [codes(y) for kv in attrs for y in kv],
                     [codes(s2.name) for s2 in sigs2], dict(frame=name, scope="signals"))
@@ -967,8 +1108,17 @@ def run_tie(chk, C, F, tie_inputs):
         shorts = [bo["name"] for bo in bos]
         attrs = [(cid_name.get(st["cid"], "?"), _unq(st["value"])) for st in stmts if st["k"] == "BA_" and st["cls"] == "BO_"
                  and st["name"] == "SystemMessageLongSymbol"]
-        add("long-names", 507, [codes(x[0]) for x in wf], [codes(x) for x in shorts] + [[-1]] + [codes(y) for kv in attrs for y in kv], dict(scope="frames"))
-        add("long-names", 508, [codes(x) for x in shorts] + [[-1]] + [codes(y) for kv in attrs for y in kv], [codes(x[0]) for x in rf], dict(scope="frames"))
+        by_cid = {}
+        for st in stmts:
+            if st["k"] == "BA_" and st["cls"] == "BO_" and st["name"] == "SystemMessageLongSymbol":
+                by_cid.setdefault(st["cid"], []).append(_unq(st["value"]))
+        for w, bo, r in zip(wf, bos, rf):
+            # frames are addressed by identifier: every frame is a scope of its own
+            a_ = [(bo["name"], v) for v in by_cid.get(bo["cid"], [])]
+            if a_ or rng.random() < 0.1:
+                enc_ = [codes(bo["name"])] + [[-1]] + [codes(y) for kv in a_ for y in kv]
+                add("long-names", 507, [codes(w[0])], enc_, dict(scope="frame", frame=w[0]))
+                add("long-names", 508, enc_, [codes(r[0])], dict(scope="frame", frame=w[0]))
         bu = [st for st in stmts if st["k"] == "BU_"]
         if bu and len(db2.ecus) == len(db.ecus):
             shorts = bu[0]["names"]
@@ -1007,6 +1157,9 @@ def run_tie(chk, C, F, tie_inputs):
             add("int-text", 513, [[bo["cid"]]], [[1] + codes(str(bo["cid"]))], dict(cid=bo["cid"]))
             add("int-text", 514, [codes(str(bo["cid"]))], [[1, bo["cid"]]], dict(cid=bo["cid"]))
         # statement level, core subset: W (model writer = tokenized real dump) and R (model reader = real reader)
+        if any(len({x.name[:32] for x in w[5]}) != len(w[5]) for w in wf) or len({e.name[:32] for e in db.ecus}) != len(db.ecus):
+            chk.count("tie:core-skipped-colliding-short-names")
+            continue
         try:
             vw = view_groups([e.name for e in db.ecus], db.value_tables, wf)
             sg_ = stmt_groups(stmts)
